@@ -272,10 +272,16 @@ fn mismatch(prefix: &str, stream: usize, want: &[u8], got: &[u8]) -> Violation {
 // ---------------------------------------------------------------------------
 // real-time variant through `monorail run`
 
+/// Target names of the CLI cases: `t1`, `t11`, `t111`, ... - each a string prefix of the next
+/// (never a path-component prefix), so that a `-t` filter has something to confuse.
+fn tname(i: usize) -> String {
+    format!("t{}", "1".repeat(i + 1))
+}
+
 pub fn check_cli(case: &Case, w: usize) -> CheckResult {
     let ntasks = case.streams.len() / 2;
     let cfg = ConfigSpec {
-        targets: (0..ntasks).map(|i| TargetSpec::new(&format!("t{}", i))).collect(),
+        targets: (0..ntasks).map(|i| TargetSpec::new(&tname(i))).collect(),
         ..Default::default()
     };
     let mut env = Env::new(w);
@@ -283,7 +289,7 @@ pub fn check_cli(case: &Case, w: usize) -> CheckResult {
     let mut beh = BTreeMap::new();
     for i in 0..ntasks {
         beh.insert(
-            ("c0".to_string(), format!("t{}", i)),
+            ("c0".to_string(), tname(i)),
             Behavior {
                 out: case.streams[2 * i].clone(),
                 err: case.streams[2 * i + 1].clone(),
@@ -335,7 +341,7 @@ pub fn check_cli(case: &Case, w: usize) -> CheckResult {
                 if r.status != "success" {
                     return viol("c08.cli.status", format!("({}, {}) exits 0 but is reported {:?}", cmd, t, r.status));
                 }
-                let i: usize = t[1..].parse().unwrap_or(0);
+                let i: usize = t.len().saturating_sub(2);
                 for (si, stream) in ["stdout", "stderr"].iter().enumerate() {
                     let want = bb::script_bytes(&case.streams[2 * i + si]);
                     let got = bb::stored_log(&run_path, cmd, t, stream).map_err(|e| Violation::new("c08.decode", e))?;
@@ -349,6 +355,21 @@ pub fn check_cli(case: &Case, w: usize) -> CheckResult {
     }
     if let Err((kind, msg)) = bb::verify_show(&show.stdout, &expected) {
         return viol(&format!("c08.cli.logshow.{}", kind), format!("log show: {}", msg));
+    }
+    // filtered by target: exactly that target's logs
+    for i in 0..ntasks.min(3) {
+        let name = tname(i);
+        let show = env.mr(&["log", "show", "--stdout", "--stderr", "-t", &name]);
+        let only: BTreeMap<(String, String, String), Vec<u8>> = expected.iter().filter(|(k, _)| k.1 == name).map(|(k, v)| (k.clone(), v.clone())).collect();
+        if only.values().all(|v| v.is_empty()) {
+            continue;
+        }
+        if !show.ok() {
+            return viol_obs("c08.cli.logshow.filtered.failed", format!("log show -t {} failed", name), show.brief());
+        }
+        if let Err((kind, msg)) = bb::verify_show(&show.stdout, &only) {
+            return viol(&format!("c08.cli.logshow.filtered.{}", kind), format!("log show -t {}: {}", name, msg));
+        }
     }
     let (nt, classes) = classify(&case.streams);
     let mut info = CaseInfo::new(nt).inv(env.invocations).class_if(slow_compressor, "slow-compressor-thread").class_if(with_listener, "tail-listener-attached");
